@@ -29,7 +29,7 @@ def compile_cfg(stmts):
         return len(code)  # 1-based index of the instruction just added
 
     def cond(c):
-        if c[0] == "tickwide":
+        if c[0] in WIDE:
             return "", "tickge", c[2]       # identical meaning in the specification
         return (c[1] if c[0] != "tickge" else ""), c[0], c[2]
 
@@ -88,11 +88,19 @@ def compile_cfg(stmts):
 
 
 # ---------------------------------------------------------------- AST -> C
+# spellings of "vp_tick >= N" whose type is not int: a condition is whatever C accepts as one
+WIDE = {"tickwide": "((unsigned long long)(vp_tick >= %d) << 40)",          # 64-bit, low 32 bits zero
+        "tickfrac": "(0.25 * (vp_tick >= %d))",                              # double, 0 < value < 1
+        "tick128": "((unsigned __int128)(vp_tick >= %d) << 64)",            # wider than long, low 64 bits zero
+        "tickptr": "((vp_tick >= %d) ? (void *)c : (void *)0)",             # a pointer
+        "tickhalf": "((float)(vp_tick >= %d) / 2)"}
+
+
 def c_cond(c):
     if c[0] == "tickge":
         return "(vp_tick >= %d)" % c[2]
-    if c[0] == "tickwide":     # same truth value, but a 64-bit quantity whose low 32 bits are zero (conditions need not be int)
-        return "((unsigned long long)(vp_tick >= %d) << 40)" % c[2]
+    if c[0] in WIDE:
+        return WIDE[c[0]] % c[2]
     op = {"lt": "<", "eq": "==", "ge": ">="}[c[0]]
     return "(c->%s %s %d)" % (c[1], op, c[2])
 
@@ -145,7 +153,20 @@ def emit_c(name, prog, out, depth=0):
                 lines.append(p + "}")
             elif k in ("spawn", "spawn_check", "call"):
                 mac = {"spawn": "PT_SPAWN", "spawn_check": "PT_SPAWN_AND_CHECK", "call": "PT_CALL"}[k]
-                lines.append(p + "%s(&c->kid[%d].pt, %s_k%d(&c->kid[%d]));" % (mac, s[1], name, s[1], s[1]))
+                call = "%s_k%d(&c->kid[%d])" % (name, s[1], s[1])
+                # the thread argument is an expression, not necessarily a bare call: a conditional that selects it, an
+                # assignment that keeps its result (then checked: the macro must leave the child's final result there)
+                form = (len(lines) + depth + s[1]) % 4
+                if form == 1:
+                    call = "c->a >= 0 ? %s : PT_FAILED" % call
+                elif form == 2:
+                    call = "c->a < 0 ? PT_FAILED : %s" % call
+                elif form == 3:
+                    call = "c->r = %s" % call
+                if form == 3 and k == "call":      # one (compound) statement, so that it can stand as an unbraced branch
+                    lines.append(p + "{ %s(&c->kid[%d].pt, %s); if (c->r != PT_EXITED && c->r != PT_FAILED) VP_EFF(99); }" % (mac, s[1], call))
+                else:
+                    lines.append(p + "%s(&c->kid[%d].pt, %s);" % (mac, s[1], call))
             elif k == "if_child_ok":
                 lines.append(p + "if (PT_CHILD_OK()) {")
                 gen(s[1], ind + 1)
@@ -185,8 +206,10 @@ def blockers():
     B.append(("call0_spawn0", [["call", 0], ["spawn", 0], ["if_child_ok", [["eff", 7]], [["eff", 8]]]]))      # same child pt_t driven by PT_CALL, then spawned
     B.append(("call2_spawn2", [["call", 2], ["spawn", 2], ["if_child_ok", [["eff", 7]], [["eff", 8]]]]))
     B.append(("spawn4_call4", [["spawn", 4], ["call", 4], ["eff", 9]]))
-    B.append(("wu_wide", [["wait_until", ["tickwide", "", 3]]]))
-    B.append(("exit_wide", [["exit_on", ["tickwide", "", 2]], ["yield"]]))
+    for w in sorted(WIDE):
+        B.append(("wu_" + w, [["wait_until", [w, "", 3]]]))
+        B.append(("exit_" + w, [["exit_on", [w, "", 2]], ["yield"]]))
+        B.append(("fail_" + w, [["yield"], ["fail_on", [w, "", 1]], ["eff", 9]]))
     return B
 
 
